@@ -17,6 +17,34 @@ class StmtMixin:
             ast.fix_missing_locations(alt)
             yield from self.stmt(alt, st, fx)
             return
+        v0 = n.value
+        if isinstance(v0, ast.Call) and isinstance(v0.func, ast.Name) and v0.func.id == "next" and len(v0.args) == 2 and not v0.keywords \
+                and isinstance(v0.args[0], ast.GeneratorExp) and len(v0.args[0].generators) == 1 \
+                and isinstance(v0.args[0].generators[0].target, ast.Name) and "next" not in st.env:
+            # x = next((E for v in IT if C), D)  ==  for v in IT: if C: x = E; break   else: x = D      (v renamed: it is the
+            # generator's own variable)
+            g = v0.args[0].generators[0]
+            fresh = "__next_%s_%d" % (g.target.id, n.lineno)
+
+            class Ren(ast.NodeTransformer):
+                def visit_Name(self, node):
+                    return ast.copy_location(ast.Name(id=fresh, ctx=node.ctx), node) if node.id == g.target.id else node
+            import copy as _copy
+            elt = Ren().visit(_copy.deepcopy(v0.args[0].elt))
+            conds = [Ren().visit(_copy.deepcopy(c)) for c in g.ifs]
+            hit = [ast.Assign(targets=n.targets, value=elt, lineno=n.lineno), ast.Break()]
+            body = hit
+            for c in reversed(conds):
+                body = [ast.If(test=c, body=body, orelse=[])]
+            loop = ast.For(target=ast.Name(id=fresh, ctx=ast.Store()), iter=g.iter, body=body,
+                           orelse=[ast.Assign(targets=n.targets, value=v0.args[1], lineno=n.lineno)])
+            ast.copy_location(loop, n)
+            for x in ast.walk(loop):
+                if not hasattr(x, "lineno"):
+                    ast.copy_location(x, n)
+            ast.fix_missing_locations(loop)
+            yield from self.stmt(loop, st, fx)
+            return
         for r, val, s in self.ev(n.value, st, fx):
             if r == "raise":
                 yield ("raise", val), s
@@ -547,6 +575,20 @@ class StmtMixin:
         return ("unk", "iter%d" % loop_id)
 
     def s_While(self, n, st, fx):
+        # while self.step(): BODY  - the test does the work (it calls a method of the program): read as
+        # while True: if not self.step(): break; BODY, so that every way through the call is a way through the iteration
+        if not n.orelse and not (isinstance(n.test, ast.Constant) and n.test.value is True):
+            cls = fx.func.cls if fx.func.cls is not None else (fx.func.parent.cls if fx.func.parent is not None else None)
+            calls_method = any(isinstance(x, ast.Call) and isinstance(x.func, ast.Attribute) and isinstance(x.func.value, ast.Name)
+                               and x.func.value.id == "self" and cls is not None and self.prog.lookup_method(cls, x.func.attr) is not None
+                               for x in ast.walk(n.test))
+            if calls_method:
+                brk = ast.copy_location(ast.If(test=ast.copy_location(ast.UnaryOp(op=ast.Not(), operand=n.test), n.test),
+                                               body=[ast.copy_location(ast.Break(), n.test)], orelse=[]), n.test)
+                w = ast.copy_location(ast.While(test=ast.copy_location(ast.Constant(value=True), n.test), body=[brk] + list(n.body), orelse=[]), n)
+                yield from self.s_While(ast.fix_missing_locations(w), st, fx)
+                return
+
         def bind(bs, loop_id):
             t = ("unk", "whiletest")
             for r, t0, s0 in self.ev(n.test, bs, fx):
